@@ -513,6 +513,28 @@ func expandHelperNilChecks(paths [][]Lit, depth int) ([][]Lit, bool) {
 					}
 				}
 			}
+			// "pred(...)" / "!pred(...)" where pred is a new boolean helper (a predicate extracted from a condition):
+			// followed by the literals under which the helper returns that value
+			if l.Kind == "call" && l.Call != nil && len(alts) == 0 {
+				if callee := l.Call.Call.StaticCallee(); callee != nil && flattenable[callee] {
+					if hl, okh := boolReturnLits(callee, l.Pol); okh && len(hl) > 0 && len(hl) <= 16 {
+						alts, _ = expandHelperNilChecks(hl, depth+1)
+					}
+				}
+			}
+			// the boolean result of a new helper with several results ("x, found := lookup()"): followed by the
+			// literals under which the helper returns that value there
+			if (l.Kind == "bool" || l.Kind == "ok") && len(alts) == 0 {
+				if ex, isEx := l.X.(*ssa.Extract); isEx {
+					if c2, isCall := ex.Tuple.(*ssa.Call); isCall {
+						if callee := c2.Call.StaticCallee(); callee != nil && flattenable[callee] {
+							if hl, okh := boolResultLits(callee, ex.Index, l.Pol); okh && len(hl) > 0 && len(hl) <= 16 {
+								alts, _ = expandHelperNilChecks(hl, depth+1)
+							}
+						}
+					}
+				}
+			}
 			var next [][]Lit
 			for _, c := range cur {
 				if len(alts) == 0 {
